@@ -84,6 +84,16 @@ func (matrix *Matrix) Values() iter.Seq[*MatrixRow] {
 	return matrix.om.Values()
 }
 
+func (row *MatrixRow) DeepCopy() *MatrixRow {
+	if row == nil {
+		return nil
+	}
+	return &MatrixRow{
+		Ref:   row.Ref,
+		Value: deepcopy.Slice(row.Value),
+	}
+}
+
 func (matrix *Matrix) DeepCopy() *Matrix {
 	if matrix == nil {
 		return nil
